@@ -38,6 +38,13 @@ def apply_op(handler, op):
     if api == "error":
         import tornado.web
         raise tornado.web.HTTPError(args[0])       # the handler ends in an error page: cookies set so far still go out
+    if api.startswith("try"):
+        # the handler catches the rejection and carries on: a call that raised is not a setting
+        try:
+            apply_op(handler, (api[3:], args, kw))
+        except Exception as e:
+            return "caught:" + type(e).__name__
+        return None
     if api == "set":
         handler.set_cookie(*args, **kw)
     elif api == "clear":
@@ -149,8 +156,7 @@ def build_app(box):
                 if op[0] == "error":
                     box.rec.append("ok")
                 try:
-                    apply_op(self, op)
-                    box.rec.append("ok")
+                    box.rec.append(apply_op(self, op) or "ok")
                 except Exception as e:
                     if op[0] != "error":
                         box.rec.append(type(e).__name__)
@@ -188,7 +194,7 @@ def run_case(app, box, prog):
         res.signed = {}
         if not res.problems and res.resps and not c.closed:
             res.cookies = [wo.ua_parse_set_cookie(v) for v in res.resps[0].get_all("set-cookie")]
-            if res.cookies and all(r == "ok" for r in res.rec):
+            if res.cookies and all(r == "ok" or r.startswith("caught:") for r in res.rec):
                 pairs = b"; ".join(n + b"=" + v for n, v, _ in res.cookies)
                 box.want_signed = [op[1][0] for op in prog if op[0] == "signed"
                                    and isinstance(op[1][0], str)]
@@ -215,12 +221,25 @@ def attr_matches(want, got_present, got):
         return False
     if want is None:
         return got is None or got == b""
+    if isinstance(want, str):
+        # header text is latin-1 on the wire (what Tornado's own request side, and its client, decode with): a
+        # character U+0080..U+00FF sent as two UTF-8 bytes reads back as two other characters
+        # ... and exactly the requested string: a user agent trims the value, so an attribute that begins or ends
+        # with whitespace cannot arrive as requested - the call has to raise
+        try:
+            return got is not None and got == want.encode("latin-1")
+        except UnicodeEncodeError:
+            pass
     return got is not None and got in wo.trimmed(wo.enc_options(want))
 
 
 def judge(prog, res, notes):
     """-> None | (symptom, detail)"""
-    rejected = any(r != "ok" for r in res.rec)
+    rejected = any(r != "ok" and not r.startswith("caught:") for r in res.rec)
+    if not rejected:
+        # the caught calls raised (allowed); the others are what the response owes
+        prog = [((op[0][3:],) + tuple(op[1:]) if op[0].startswith("try") else op)
+                for op, r in zip(prog, res.rec) if r == "ok"]
     if res.problems or not res.resps:
         sym = wo.worst_problem(res.problems or ["missing response"])
         if sym == "no-response":
@@ -411,6 +430,13 @@ def p_ops():
 
 
 P_OPS = p_ops()
+# calls that are refused at different depths of set_cookie (argument check, attribute check, timestamp formatting,
+# attribute name, serialise-now check), caught by the handler
+T_OPS = [("tryset", ("a", "x y"), {}), ("tryset", ("a", "6"), {"domain": "x;y"}), ("tryset", ("a", "7"), {"Path": "/p "}),
+         ("tryset", ("a", "8"), {"expires": "tomorrow"}), ("tryset", ("a", "9"), {"Bogus": "1"}),
+         ("tryset", ("a", "7"), {"SameSite": "Lax "}), ("tryclear", ("a",), {"path": "/p;x"}),
+         ("tryclear", ("a",), {"Path": "/p "}), ("trysigned", ("a", "5"), {"domain": "x;y"}),
+         ("tryset", ("a", "6"), {"domain": "\u0100"})]
 
 
 def describe(prog):
@@ -475,6 +501,7 @@ class C25(Check):
                 parts.append(("A", ei, di))
         for i in range(len(P_OPS)):
             parts.append(("P", i))
+        parts.append(("T", 0))
         return parts
 
     # ---- execution
@@ -498,6 +525,17 @@ class C25(Check):
                              {"family": "A", "ei": part[1], "di": part[2],
                               "op": describe([op])[0]},
                              (op[0], repr(sorted(op[2].items()))) if op[2] else None)
+            elif part[0] == "T":
+                # an accepted setting (or none), then a call for the same / another name that raises and is caught, then
+                # possibly one more operation: the refused call must leave no trace and take nothing away
+                firsts = [None] + [op for op in P_OPS if op[1] and op[1][0] in ("a", "b")]
+                lasts = [None] + [op for op in P_OPS if op[0] != "error" and op[1][0] == "a"]
+                for fi, f in enumerate(firsts):
+                    for ti, t in enumerate(T_OPS):
+                        for li, l in enumerate(lasts):
+                            prog = [op for op in (f, t, l) if op is not None]
+                            self.one(app, box, prog, st, "rejected-call",
+                                     {"family": "T", "ops": [fi, ti, li]}, ("T", fi, ti, li))
             else:
                 first = P_OPS[part[1]]
                 depth = self.p_depth(tier)
@@ -546,6 +584,11 @@ class C25(Check):
                 want = case["op"]
                 prog = [[op] for op in a_ops(case["ei"], case["di"])
                         if describe([op])[0] == want][0]
+            elif case["family"] == "T":
+                fi, ti, li = case["ops"]
+                firsts = [None] + [op for op in P_OPS if op[1] and op[1][0] in ("a", "b")]
+                lasts = [None] + [op for op in P_OPS if op[0] != "error" and op[1][0] == "a"]
+                prog = [op for op in (firsts[fi], T_OPS[ti], lasts[li]) if op is not None]
             else:
                 prog = [P_OPS[i] for i in case["ops"]]
             box = Box()
